@@ -71,5 +71,25 @@ ConfPretty(who) ==
      LET r == ImplMarkersAll(file, cfg, op = "list_all") IN
      Drift("ImplPretty", r.unknown \/ r.crash \/ (\E i \in 1..Len(file) : file[i] = CR) \/ out = ImplPretty(file, r.rows), who)
 
+(***************************************************************************)
+(* Growth beyond the listed properties: a process run without a usable     *)
+(* --time-limited-current reads the system clock.  The harness read the    *)
+(* clock itself just before (cfg.now, Configure event) and just after      *)
+(* (res.wall1) the run; when no element changes its status between the two *)
+(* readings the run must yield the library result for cfg.  Reported as    *)
+(* DRIFT: no listed property speaks about the default clock.               *)
+(***************************************************************************)
+ConfWallClock(who) ==
+  (pc = "cli_done" /\ ~res.cur_given /\ CfgOfOpts(res, cfg)) =>
+     LET me == hist[Len(hist)]
+         c1 == [cfg EXCEPT !.now = res.wall1]
+     IN (LaterOrEqual(res.wall1, cfg.now) /\ Doc(me.src, cfg).elems = Doc(me.src, c1).elems) =>
+          Drift("CliWallClock",
+                /\ res.exit = 0
+                /\ \A i \in 1..(Len(hist) - 1) :
+                      LET h == hist[i] IN
+                      (h.op = LibOpOf(res) /\ h.src = me.src /\ h.cfg = cfg) => Payload(res) = h.out, who)
+
 ConfAll(who) == ConfTokens(who) /\ ConfTree(who) /\ ConfMarkers(who) /\ ConfOut(who) /\ ConfCrash(who) /\ ConfItems(who) /\ ConfPretty(who)
+                /\ ConfWallClock(who)
 =============================================================================
